@@ -267,6 +267,12 @@ class Term(NamedTuple):
         if isinstance(self.index_, str):
             return f"self['{self.name}', {self.index_}]"
 
+        # Names with a leading underscore can't be written as `self.__name`:
+        # inside the class body, Python mangles that to `self._Model__name`.
+        # Access the underlying array through the instance dictionary instead
+        if self.name.startswith('_'):
+            return f"self.__dict__['_{self.name}']" + code[len(self.name):]
+
         # Otherwise, access as a regular internal variable
         return 'self._' + code
 
